@@ -806,8 +806,16 @@ def check_fused_reductions(idx, run):
               "them again", loc(cls.module, func))
 
 
+
+GUARDED = [
+    ('Dynamo0p3RedundantComputationTrans', 'validate'),
+    ('LFRicLoopFuseTrans', 'validate'),
+]
+
 def check(idx, run):
     run.explanation = __doc__
+    from sa.guards import check_guards
+    check_guards(idx, run, "C20.R9", GUARDED)
     reductions = check_builtins(idx, run)
     check_reduction_flag(idx, run, reductions)
     check_dof_bounds(idx, run)
